@@ -66,7 +66,7 @@ def gen_proj(rng, shape, ncls):
     return p
 
 
-DISTS = ["manhattan", "manhattan", "euclidean", "euclidean", "chebyshev", "inf", "npinf", "p1", "p2", "p3", "callable",
+DISTS = ["manhattan", "manhattan", "euclidean", "euclidean", "chebyshev", "inf", "npinf", "p1", "p2", "p3", "p9", "p12", "callable",
          "cosine"]
 # 2-D vectors on the k/4 grid whose Euclidean norm is rational (cosine distance is then rational); collinear
 # pairs give exact ties
@@ -205,8 +205,8 @@ def np_dist(case, a, b):
         return d.max()
     if k in ("euclidean", "p2"):
         return (d * d).sum()
-    if k == "p3":
-        return (d ** 3).sum()
+    if k in ("p3", "p9", "p12"):
+        return (d ** int(k[1:])).sum()
     if k == "cosine":
         return round(1 - float(a @ b) / float(np.sqrt(a @ a) * np.sqrt(b @ b)), 9)
     return (d * np.array(case["dw"])).sum()
@@ -243,8 +243,8 @@ def make_distance(case):
     k = case["dist"]
     if k == "npinf":
         return np.inf
-    if k in ("p1", "p2", "p3"):
-        return int(k[1])
+    if k in ("p1", "p2", "p3", "p9", "p12"):
+        return int(k[1:])
     if k == "callable":
         w = tf.constant(case["dw"], dtype=tf.float32)
         return lambda a, b: tf.reduce_sum(tf.abs(a - b) * w, axis=-1)
@@ -450,8 +450,8 @@ def cdist(case):
         return "DChebyshev"
     if k == "euclidean":
         return "DEuclid"
-    if k in ("p1", "p2", "p3"):
-        return f"(DPow {k[1]})"
+    if k in ("p1", "p2", "p3", "p9", "p12"):
+        return f"(DPow {k[1:]})"
     if k == "cosine":
         return "DCosine"
     return f"(DCustom {core.cqlist(case['dw'])})"
